@@ -4,7 +4,8 @@ import re
 SPEC = {
     "properties_file": "Properties_C10.v",
     "facts": ["provider_q_browse", "provider_q_ptr", "provider_q_srv", "provider_q_txt", "provider_known_ptr", "provider_known_srv",
-              "provider_known_txt", "probe_wait_ms", "registration_wait_ms", "rebroadcast_ms", "browse_type", "mdns_port"],
+              "provider_known_txt", "provider_ignore_message", "provider_has_target", "provider_must_confirm",
+              "provider_probe_pending", "provider_retarget", "prober_ignore_message", "probe_wait_ms", "registration_wait_ms", "rebroadcast_ms", "browse_type", "mdns_port"],
     "assumptions": ["service and host names that are valid UTF-8; one provider, its hostname object and its internal prober on one server",
                     "timers fire at or after their deadline; scripted peers answer by explicit conflicting responses"],
 }
